@@ -1328,6 +1328,39 @@ example : rankPixelAccesses 5 2 false [true, false, true, true, false] = [⟨0, 
     rankPixelAccesses 5 5 false [true, false, true, true, false] = [] ∧
     allOk ((rankStores false [true, true, true] 0).1.map (fun i => CAcc.mk i 2)) = false := by decide
 
+
+/-- **C10, `py_daubechies` / `py_idaubechies`: the coefficient table selected by `dcoeffs(code)`.** For EVERY `int code`: the entry point
+goes on exactly for `0 ≤ code ≤ 9` (otherwise `dcoeffs` sets an error and the entry point returns), and then every
+`coeffs[j]`, `j < ncoeffs = 2*(code+1)`, of `wavelet` / `iwavelet` is inside the table the `switch` selected — the ten tables as
+extracted from the current source have exactly `2*(code+1)` entries (so `nc` of `C10_wavelet_in_bounds` is the table length). -/
+theorem C10_daubechies_tables_in_bounds (code : Int) :
+    (daubCoeffReads code = none ↔ code < 0 ∨ 9 < code) ∧ ∀ l, daubCoeffReads code = some l → Mahotas.C10Conv.allOk l = true := by
+  have hlen : Mahotas.Generated.dcoeffs.length = 10 := by decide
+  have htab : ∀ c : Nat, c < 10 → (Mahotas.Generated.dcoeffs.getD c []).length = 2 * (c + 1) := by decide
+  have h10 : (Int.ofNat 10 : Int) = 10 := rfl
+  unfold daubCoeffReads
+  rw [hlen, h10]
+  constructor
+  · split <;> simp <;> omega
+  · intro l h
+    split at h
+    · rename_i hc
+      simp only [Option.some.injEq] at h
+      subst h
+      rw [Mahotas.C10Conv.allOk_iff]
+      intro a ha
+      simp only [List.mem_map, List.mem_range, Int.ofNat_eq_natCast] at ha
+      obtain ⟨j, hj, rfl⟩ := ha
+      have := htab code.toNat (by omega)
+      simp only
+      rw [this]
+      push_cast
+      omega
+    · simp at h
+
+example : (daubCoeffReads 1).map (fun l => l.map (·.i)) = some [0, 1, 2, 3] ∧ daubCoeffReads 10 = none ∧ daubCoeffReads (-1) = none := by
+  decide
+
 /-- **C10, `rank_filter`: the rank test in front of the loop is necessary.** Without `rank >= N2` rejected, `rank = N2` with every
 neighbour retrieved reads `neighbours[N2]`, one past the vector, for every footprint size. -/
 theorem C10_rank_filter_needs_rank_guard (n2 : Int) : (CAcc.mk (curRank n2 n2 n2) n2).ok = false := by
